@@ -25,7 +25,7 @@ this machine). `witnesses`: satisfied / unsatisfiable-but-optional vacuity witne
 a single harness family was selected, the `--only` pattern; *detected* = exit 1 with a natively
 reproduced counterexample, *missed* = exit 0, *inconclusive* = exit 2 (CBMC reported failures that the
 native replay / valgrind did not confirm, or nothing finished). `/repo HEAD` is the commit the scratch
-worktree was created from; rows with an older HEAD than the final one (7fdee23) were run before the last
+worktree was created from; rows with an older HEAD than the final one (4bcb8f3) were run before the last
 repair / hook commits and were not repeated (the harnesses that caught them are unchanged). A mutant with
 several rows was run against several checks; the last rows show the state after the checks were
 strengthened (section 10).
